@@ -274,8 +274,17 @@ inline int runCampaign(const HarnessArgs& a, const std::string& name, const GenF
     const std::string fail = a.out + "/fail_" + std::to_string(a.worker) + ".case";
     std::remove(fail.c_str());
     auto lastFlush = std::chrono::steady_clock::now();
+    // Shrinking is bounded by a number of evaluations (not by time): once a failing case exists, at most this many further
+    // candidates are executed; later candidates are declared passing unexecuted, which ends rapidcheck's shrink loop with
+    // the smallest failing case found so far (already saved). Expensive harnesses (ThreadSanitizer children) set it low.
+    const char* msEnv       = getenv("VERIF_MAX_SHRINK_EVALS");
+    const long maxShrink    = msEnv ? atol(msEnv) : 400;
+    long evalsAfterFailure  = 0;
+    bool haveFailure        = false;
     bool ok = rc::check(name, [&] {
         KV c = gen();
+        if (haveFailure && ++evalsAfterFailure > maxShrink)
+            return;
         c.save(cur);
         Outcome o;
         try {
@@ -295,6 +304,7 @@ inline int runCampaign(const HarnessArgs& a, const std::string& name, const GenF
             f.putS("fail_oracle", o.oracle);
             f.putS("fail_msg", o.msg);
             f.save(fail);
+            haveFailure = true;
             st.flush();
             RC_FAIL(o.oracle + ": " + o.msg);
         }
